@@ -1,0 +1,15 @@
+//go:build verif
+
+package midicatdrv
+
+// Contracts for the deductive verifier in /verif (govc). Comment-only.
+//
+// The per-driver filter in front of the user callback (C14), the same closure as in testdrv: the message is handed
+// on, unchanged and with the same time stamp, unless its class is switched off. (The rest of this driver - helper
+// process, goroutines, channels, locks - is outside the verified subset.)
+//@ func (*in).Listen$2
+//@ requires onMsg != nil
+//@ modifies cb_log
+//@ ensures [P:C14] (typeOfB(len(data), data[0]) == midi.ActiveSenseMsg && !conf.ActiveSense) || (typeOfB(len(data), data[0]) == midi.TimingClockMsg && !conf.TimeCode) || (typeOfB(len(data), data[0]) == midi.SysExMsg && !conf.SysEx) ==> cb_n == old(cb_n)
+//@ ensures [P:C14] !((typeOfB(len(data), data[0]) == midi.ActiveSenseMsg && !conf.ActiveSense) || (typeOfB(len(data), data[0]) == midi.TimingClockMsg && !conf.TimeCode) || (typeOfB(len(data), data[0]) == midi.SysExMsg && !conf.SysEx)) ==> (cb_n == old(cb_n) + 1 && cb_fn(old(cb_n)) == onMsg && cb_len(old(cb_n), 0) == len(data) && cb_i32(old(cb_n), 1) == absmilliseconds)
+//@ ensures [P:C14] cb_n == old(cb_n) + 1 ==> forall j int :: 0 <= j && j < len(data) ==> cb_byte(old(cb_n), 0, j) == data[j]
